@@ -6,6 +6,6 @@ From Coq Require Import ZArith QArith List Extraction ExtrOcamlBasic.
 From Inf Require Import base.ExtrBase model.PathM model.WeightM spec.WeightS.
 Extraction Language OCaml.
 Extraction "extract/c10_model.ml" extr_anchor
-  wf_segments wf_nframes wf_pick seg_frames compute_weight calc_cv_vector
+  wf_segments wf_nframes wf_pick seg_frames wf_seed wf_pick_seed compute_weight calc_cv_vector
   high_acc_ratio high_acc_accept
   wf_spec wf_spec_weight.
